@@ -673,7 +673,8 @@ def r5_effects(L, repo):
     vmax = fold(repo, repo.mod("data_msg"), ast.parse("Msg.CHDR_VERSION_MAX", mode="eval").body)
     L.require("C05.R5", rel("data_msg"), "Msg", "CHDR_VERSION_MAX is the 4-bit maximum", 15, vmax)
     for v in range(0, 16):
-        e = Ev(repo, dmod, self_cls=dci)
+        e = Ev(repo, dmod, env={"self._hdr_ver": 0}, self_cls=dci)      # (an interface starts on version 0)
+        e.ignore_calls = ("log.", "logging.")
         try:
             r = e.call_func(setm, dmod, [("self", "<self>"), (params(setm)[1], v)], self_cls=dci)
         except (Unknown, Raised) as ex:
